@@ -25,6 +25,7 @@ mod e2e;
 
 use rs_matter::acl::{Accessor, AccessorSubjects};
 use rs_matter::dm::{Access, Attribute, Cluster, Command, DeviceType, Endpoint, Metadata, Node, Quality};
+use std::num::NonZeroU8;
 use rs_matter::im::{expand_invoke, expand_read, expand_write, IMStatusCode, InvReq, ReadReq, ReportDataReq, WriteReq};
 use rs_matter::tlv::TLVElement;
 use rs_matter::Matter;
@@ -346,6 +347,13 @@ impl Metadata for SwapMeta {
 }
 
 fn run_x<M: Metadata + Copy>(matter: &Matter<'_>, node: M, w: &[&str], out: &mut Out) -> String {
+    run_x_wipe(matter, node, w, None, out)
+}
+
+/// `wipe_at = Some(k)`: (writes) the ACL of the requester's fabric is emptied after `k` calls of the
+/// expander's `next` — what the handler of a WriteRequest item that rewrites the ACL does between two
+/// calls; calls `0..k` see the ACL as configured, the later calls the emptied one
+fn run_x_wipe<M: Metadata + Copy>(matter: &Matter<'_>, node: M, w: &[&str], wipe_at: Option<usize>, out: &mut Out) -> String {
     let kind = w[1];
     let fab: u8 = w[2].parse().unwrap_or(0);
     let mode = c05::mode_of(w[3]);
@@ -407,12 +415,24 @@ fn run_x<M: Metadata + Copy>(matter: &Matter<'_>, node: M, w: &[&str], out: &mut
             "w" => {
                 let bytes = write_req(&paths, timed);
                 let req = WriteReq::new(TLVElement::new(&bytes));
-                let it = match expand_write(node, &req, &accessor) {
+                let mut it = match expand_write(node, &req, &accessor) {
                     Ok(it) => it,
                     Err(_) => return vec!["err".to_string()],
                 };
-                for (n, item) in it.enumerate() {
-                    if n >= STEP_CAP {
+                let mut n = 0usize;
+                loop {
+                    if wipe_at == Some(n) {
+                        if let Some(f) = NonZeroU8::new(fab) {
+                            matter.with_state(|state| {
+                                if let Ok(fabric) = state.fabrics.fabric_mut(f) {
+                                    fabric.acl_remove_all();
+                                }
+                            });
+                        }
+                    }
+                    let Some(item) = it.next() else { break };
+                    n += 1;
+                    if n > STEP_CAP {
                         outs.push("HANG".into());
                         break;
                     }
@@ -505,6 +525,19 @@ fn run_case(matter: &Matter<'_>, env: &e2e::Env, out: &mut Out, case: &Case) {
             Some("e2e") if w.len() == 10 => {
                 let o = run_e2e(matter, env, node, &w, out);
                 if o.contains("ok ") || o.contains("ev ") {
+                    kinds.insert("item");
+                }
+                if o.contains("Unsupported") || o.contains("NeedsTimed") {
+                    kinds.insert("status");
+                }
+                out.op(op, &o);
+            }
+            // xa <same 9 fields as x (kind w)> <k>: the requester's fabric loses its ACL after k calls
+            Some("xa") if w.len() == 11 => {
+                let k: usize = w[10].parse().unwrap_or(0);
+                let o = run_x_wipe(matter, node, &w[..10], Some(k), out);
+                out.stat("acl_rewrite_requests", 1);
+                if o.contains("ok ") {
                     kinds.insert("item");
                 }
                 if o.contains("Unsupported") || o.contains("NeedsTimed") {
@@ -1089,6 +1122,38 @@ fn gen_case(r: &mut Rng, out: &mut Out, nx: usize, _case_id: u64) -> Vec<String>
                 "e2e {} {} {} {} {} {} {} {} {}",
                 kind, fab, mode, id, cats, treq, flag_s, paths.join(";"), if emit.is_empty() { "-".to_string() } else { emit.join(",") }
             ));
+        }
+    }
+    // a WriteRequest whose handler rewrites the ACL between the expander's calls (last: the ACL of the
+    // requester's fabric is gone afterwards): repeated concrete paths (cache hits) and other paths
+    if !eps.is_empty() && r.chance(1, 3) {
+        let fab = r.range(1, nf);
+        let id = *r.pick(&[1u64, 1, 2, 112233]);
+        let timed = if r.chance(1, 2) { 1 } else { 0 };
+        let mut pool: Vec<String> = Vec::new();
+        for e in &eps {
+            for c in &e.clusters {
+                for l in &c.attrs {
+                    pool.push(format!("{}/{}/{}", e.id, c.id, l.id));
+                }
+            }
+        }
+        if !pool.is_empty() {
+            let np = r.range(2, 5);
+            let mut paths: Vec<String> = Vec::new();
+            for _ in 0..np {
+                if !paths.is_empty() && r.chance(1, 2) {
+                    let p = paths[paths.len() - 1].clone();
+                    paths.push(p);
+                } else if r.chance(1, 6) {
+                    paths.push(format!("*/{}/{}", r.pick(&CLUSTERS), r.below(3)));
+                } else {
+                    paths.push(r.pick(&pool).clone());
+                }
+            }
+            let k = r.range(0, 3);
+            out.stat(&format!("acl_rewrite_after_{}", k), 1);
+            ops.push(format!("xa w {} c 0 {} - {} - {} {}", fab, id, timed, paths.join(";"), k));
         }
     }
     ops
